@@ -65,8 +65,19 @@ func RunAttestToolCase(cs map[string]any, id int, seed int64, tool string) Resul
 		outPath = filepath.Join(dir, "no-such-dir", "quote.out")
 		args = append(args, "-out", outPath)
 	}
+	switch str("flags") {
+	case "verbose":
+		args = append(args, "-v", "-verbosity=2")
+	case "unknownFlag":
+		args = append([]string{"-no_such_flag=1"}, args...)
+	case "badValue":
+		args = append(args, "-verbosity=lots")
+	}
 	// no device anywhere: the configured device path does not exist
 	args = append(args, "-tdx_guest_device_path", filepath.Join(dir, "no-tdx-guest"))
+	if str("flags") == "positional" {
+		args = append(args, "stray-argument")
+	}
 	cmd := exec.Command(tool, args...)
 	var stderr, stdout bytes.Buffer
 	cmd.Stderr, cmd.Stdout = &stderr, &stdout
@@ -97,7 +108,10 @@ func RunAttestToolCase(cs map[string]any, id int, seed int64, tool string) Resul
 		}
 	}
 	stage := "quote"
+	usage := strings.Contains(se, "Usage of ")
 	switch {
+	case usage:
+		stage = "flags"
 	case strings.Contains(se, "could not be decoded") || strings.Contains(se, "is not representable") || strings.Contains(se, "-inform should be") || strings.Contains(se, "as a UTF-8 string"):
 		stage = "parse"
 	case strings.Contains(se, "-outform is"):
@@ -111,7 +125,7 @@ func RunAttestToolCase(cs map[string]any, id int, seed int64, tool string) Resul
 	}
 	return Result{ID: id, Events: []Event{{"ev": "Call", "case": id, "input": cs},
 		{"ev": "Return", "exit": exit, "crash": hung || strings.Contains(se, "panic:") || strings.Contains(se, "goroutine 1 ["), "fatalLine": strings.Contains(se, "FATAL"),
-			"created": created, "stage": stage, "stdoutLen": stdout.Len(), "stderr": tail, "result": "exit" + itoa(exit)}}}
+			"created": created, "stage": stage, "usage": usage, "stdoutLen": stdout.Len(), "stderr": tail, "result": "exit" + itoa(exit)}}}
 }
 
 func init() {
